@@ -78,18 +78,21 @@ def interp(facts, fuel=600000):
 
 class Graph(minirust.Obj):
     def __init__(self, n, edges):
+        # `n`: the number of vertices (named 0..n-1) or the tuple of vertex names (a graph with holes in its numbering, as every rewritten diagram has)
+        names = list(range(n)) if isinstance(n, int) else list(n)
         self.n = n
+        self.names = names
         self.E = set(frozenset(e) for e in edges)
         minirust.Obj.__init__(self, 'graph', {
-            'vertices': lambda a: list(range(n)), 'connected': lambda a: frozenset((a[0], a[1])) in self.E, 'num_vertices': lambda a: n,
-            'vertex_vec': lambda a: list(range(n)), 'clone': lambda a: self,
+            'vertices': lambda a: list(names), 'connected': lambda a: frozenset((a[0], a[1])) in self.E, 'num_vertices': lambda a: len(names),
+            'vertex_vec': lambda a: list(names), 'clone': lambda a: self, 'contains_vertex': lambda a: a[0] in names,
         }, strict=True)
 
     def mr_clone(self):
         return self
 
     def __str__(self):
-        return 'graph on %d vertices with edges %s' % (self.n, sorted(tuple(sorted(e)) for e in self.E))
+        return 'graph on %s with edges %s' % (('%d vertices' % self.n) if isinstance(self.n, int) else ('the vertices %s' % (list(self.names),)), sorted(tuple(sorted(e)) for e in self.E))
 
 
 def node_parts(nd):
@@ -119,14 +122,16 @@ def structure(st, n):
     """-> '' when the state is a cubic tree over exactly the graph's vertices, else what is wrong"""
     nodes, leaves, interior = st[0], st[1], st[2]
     N = len(nodes)
+    names = list(range(n)) if isinstance(n, int) else sorted(n)
+    n = len(names)
     if n >= 2 and N != 2 * n - 2:
         return '%d nodes for %d vertices (a cubic tree has %d)' % (N, n, 2 * n - 2)
     if sorted(leaves) != [i for i, x in enumerate(nodes) if x[0] == 'L']:
         return 'the leaf list %s does not index exactly the leaf nodes' % (list(leaves),)
     if sorted(interior) != [i for i, x in enumerate(nodes) if x[0] == 'I']:
         return 'the interior list %s does not index exactly the interior nodes' % (list(interior),)
-    if sorted(x[2] for x in nodes if x[0] == 'L') != list(range(n)):
-        return 'the leaves carry the vertices %s, not each of 0..%d once' % (sorted(x[2] for x in nodes if x[0] == 'L'), n)
+    if sorted(x[2] for x in nodes if x[0] == 'L') != names:
+        return 'the leaves carry the vertices %s, not each vertex %s of the graph once' % (sorted(x[2] for x in nodes if x[0] == 'L'), names)
     for i, (kind, nhd, _v) in enumerate(nodes):
         if len(nhd) != (1 if kind == 'L' else 3):
             return 'node %d has degree %d' % (i, len(nhd))
@@ -330,6 +335,17 @@ def explore(facts, g, raw_limit=1, max_states=None, inits=None, procs=8):
         if tuple(ex['reported']) != tuple(ex['scratch']):
             fail('cache', 'on the %s after %s: rankwidth/score reported %s/%s, the same functions on a copy with an empty cache report %s/%s; %s'
                  % (g, hist, ex['reported'][0], ex['reported'][1], ex['scratch'][0], ex['scratch'][1], show(st)))
+        # the cache holds ranks of CURRENT edges only: an entry left behind under a key that is no longer an edge is inherited by whatever edge takes
+        # that key later and defeats the `ranks.len() == num_edges()` shortcut of compute_ranks (the stale-cut scenario needs more moves than are explored)
+        orc_ = oracle_ranks(st, g)
+        for k_, v_ in sorted(st[3]):
+            kk_ = (min(k_), max(k_)) if isinstance(k_, tuple) and len(k_) == 2 else k_
+            if kk_ not in orc_:
+                fail('cache', 'on the %s after %s: the rank cache keeps an entry for %s, which is not an edge of the tree; %s' % (g, hist, k_, show(st)))
+                break
+            if orc_[kk_] != v_:
+                fail('cache', 'on the %s after %s: the rank cache holds %s for the edge %s whose cut has rank %s; %s' % (g, hist, v_, k_, orc_[kk_], show(st)))
+                break
         if ex['scratch'][0] != ex['oracle'][0]:
             fail('width', 'on the %s after %s: rankwidth computed from an empty cache is %s, the largest cut rank of the tree is %s; %s'
                  % (g, hist, ex['scratch'][0], ex['oracle'][0], show(st)))
